@@ -29,7 +29,13 @@ pub fn main(args: &[String]) -> i32 {
     let db = realise(&gt.table, &Realisation::partitions(&splits, std::env::var("LVERIF_THREADS").ok().and_then(|s| s.parse().ok()).unwrap_or(1)), &op);
     for sql in &args[3..] {
         println!("== {}", sql);
-        let got = db.query_opts(sql, false, true);
+        let explain = std::env::var("LVERIF_EXPLAIN").is_ok();
+        let got = db.query_opts(sql, explain, true);
+        if let (true, Ok(q)) = (explain, &got) {
+            for p in &q.plans {
+                println!("   PLAN {}", p);
+            }
+        }
         match &got {
             Ok(q) => {
                 println!("   {} rows; colnames {:?}; kinds {:?}", q.rows.len(), q.colnames, q.col_kinds);
